@@ -68,7 +68,7 @@ fn spec_for(prop: &str, tier: &str, seed: u64) -> RunSpec {
         }
         "C09" | "C10" | "C13" => {
             s.rule = "seeded random walks (30-200 operations) over the public modification API of Schedule, starting from the empty schedule, one-vehicle-per-trip and the min-cost-flow solution; after every Ok operation the full observable state is snapshotted and judged; non-trivial = distinct (instance, operation kind, argument shape) triples that returned Ok and changed the state; monitor_counters lists every covered shape cell".to_string();
-            s.cases = if thorough { 400000 } else { 6000 };
+            s.cases = if thorough { 250000 } else { 6000 };
             s.min_nontrivial = 50;
         }
         "C08" => {
@@ -125,7 +125,7 @@ fn spec_for(prop: &str, tier: &str, seed: u64) -> RunSpec {
         }
         "C14" => {
             s.rule = "instances with decoupled depot totals from the seeded generator; MinCostFlowSolver::solve() is observed through public getters and compared per vehicle type with an independent min-cost circulation (successive shortest paths, lexicographic (vehicles, cost)) over ALL connectable pairs; non-trivial = distinct instances whose start solution chains >= 2 activities in some tour".to_string();
-            s.cases = if thorough { 3000000 } else { 20000 };
+            s.cases = if thorough { 2000000 } else { 20000 };
         }
         "C17" => {
             s.rule = "instances from the seeded generator (emphasis ties, non-metric, forbidden dead-heads); every public getter of the loaded Network is compared with the reference model, can_reach for ALL ordered node pairs, successors/predecessors for every node and type as sets; non-trivial = distinct instances containing >= 1 zero-slack pair and >= 1 pair with a location change".to_string();
